@@ -665,4 +665,86 @@ theorem sim_envSet {σ : Sh} {s t : St} (hR : StR σ s t) (e : Nat) (name : Stri
     SimAt σ (envSet (sh σ e) name (ren σ val)) (envSet e name val) s t (QO σ) :=
   sim_createOrSet hR e name val false
 
+/-! ### envDelete -/
+
+theorem sim_setFrame {σ : Sh} {s t : St} (hR : StR σ s t) {e : Nat} {ft : Frame} (hte : t.frames[e]? = some ft)
+    {fs' ft' : Frame} (hfr : FrameR σ e fs' ft') (hdec : FrameDec e ft') :
+    SimAt σ (setFrame (sh σ e) fs') (setFrame e ft') s t (fun _ _ => True) := by
+  unfold SimAt setFrame
+  rw [runM_modify, runM_modify]
+  exact ⟨hR.setFrame hte hfr hdec, trivial⟩
+
+theorem sim_envDelete_go {σ : Sh} (name : String) :
+    ∀ (n m e : Nat) (s t : St), StR σ s t → e < n → sh σ e < m →
+      SimAt σ (envDelete.go name m (sh σ e)) (envDelete.go name n e) s t (QO σ) := by
+  intro n
+  induction n with
+  | zero => intro m e s t _ h; exact absurd h (Nat.not_lt_zero _)
+  | succ n ih =>
+    intro m e s t hR hen hem
+    obtain ⟨m', rfl⟩ : ∃ m', m = m' + 1 := ⟨m - 1, by omega⟩
+    unfold envDelete.go
+    refine sim_getFrame_bind hR e ?_
+    intro fs ft hte hfs hfr
+    dsimp only
+    -- the frames with the set counter bumped
+    have hfr2 : FrameR σ e (if (fs.depth == 0) = true then { fs with numSet := fs.numSet + 1 } else fs)
+        (if (ft.depth == 0) = true then { ft with numSet := ft.numSet + 1 } else ft) := by
+      have hd : (fs.depth == 0) = (ft.depth == 0) := by rw [hfr.depth]
+      rw [hd]
+      split
+      · exact ⟨hfr.store, hfr.outer, hfr.depth, hfr.cacheKey, hfr.function,
+          fun h => ⟨(hfr.counters h).1, (hfr.counters h).2.1, by simp [(hfr.counters h).2.2]⟩⟩
+      · exact hfr
+    have hdec2 : FrameDec e (if (ft.depth == 0) = true then { ft with numSet := ft.numSet + 1 } else ft) := by
+      have := hR.dec e ft hte
+      split
+      · exact ⟨this.1, this.2⟩
+      · exact this
+    generalize (if (fs.depth == 0) = true then { fs with numSet := fs.numSet + 1 } else fs) = fs2 at hfr2
+    generalize (if (ft.depth == 0) = true then { ft with numSet := ft.numSet + 1 } else ft) = ft2 at hfr2 hdec2
+    rw [hfr2.store, lookupStore_ren]
+    cases hl : lookupStore ft2.store name with
+    | some old =>
+      simp only [Option.map]
+      refine SimAt.bind (Q := fun _ _ => True) ?_ ?_
+      · refine sim_setFrame hR hte ?_ (frameDec_delStore hdec2 name)
+        have := frameR_delStore hfr2 name
+        rw [hfr2.store] at this
+        exact this
+      · intro _ _ s1 t1 hR1 _
+        refine SimAt.bind (Q := fun _ _ => True) ?_ (fun _ _ s2 t2 hR2 _ => SimAt.pure hR2 rfl)
+        exact sim_functionChanged hR1 e (some old)
+    | none =>
+      simp only [Option.map]
+      refine SimAt.bind (Q := fun _ _ => True) (sim_setFrame hR hte hfr2 hdec2) ?_
+      intro _ _ s1 t1 hR1 _
+      rw [hfr2.outer]
+      cases hout : ft2.outer with
+      | none => exact SimAt.pure hR1 rfl
+      | some o =>
+        simp only [Option.map]
+        have hoe : o < e := hdec2.1 o hout
+        have := sh_lt σ hoe
+        exact ih m' o s1 t1 hR1 (by omega) (by omega)
+
+theorem sim_envDelete {σ : Sh} {s t : St} (hR : StR σ s t) (e : Nat) (name : String) :
+    SimAt σ (envDelete (sh σ e) name) (envDelete e name) s t (QO σ) := by
+  unfold envDelete
+  refine SimAt.bind_read (runM_get s) (runM_get t) ?_
+  have h2 : sh σ t.frames.size = t.frames.size + σ.d := sh_of_ge σ hR.n0
+  by_cases ho : e < t.frames.size
+  · have h1 := sh_lt σ ho
+    exact sim_envDelete_go name _ _ e s t hR ho (by rw [hR.size]; omega)
+  · have hpos := hR.pos
+    have hn0 := hR.n0
+    obtain ⟨k, hk⟩ : ∃ k, t.frames.size = k + 1 := ⟨t.frames.size - 1, by omega⟩
+    obtain ⟨k', hk'⟩ : ∃ k', s.frames.size = k' + 1 := ⟨s.frames.size - 1, by rw [hR.size]; omega⟩
+    rw [hk, hk']
+    unfold envDelete.go
+    have hte : t.frames[e]? = none := Array.getElem?_eq_none (by omega)
+    unfold SimAt
+    rw [runM_bind, runM_bind, runM_getFrame_none hte, runM_getFrame_none (hR.none hte)]
+    exact ⟨rfl, hR⟩
+
 end Grol.R
